@@ -43,3 +43,5 @@ MUTANTS += [
 ]
 MUTANTS.append(dict(name="component-responses-parsed-once-per-name", file='core/loader/operations/parser.py', expect='R6.7', old='                        resp_node_resolved = raw_responses.get(ref_name, {}) or rn_node\n', new='                        if ref_name not in shared_responses:\n                            shared_responses[ref_name] = parse_response(\n                                str(sc),\n                                raw_responses.get(ref_name, {}) or rn_node,\n                                context,\n                                operation_id_for_promo=operation_id,\n                            )\n                        resps.append(shared_responses[ref_name])\n                        continue\n', also=('    ops: List[IROperation] = []\n', '    ops: List[IROperation] = []\n    shared_responses: dict = {}\n')))
 MUTANTS.append(dict(name='server-error-import-conditional', file='visit/exception_visitor.py', expect='R6.9', old='        context.add_import(f"{context.core_package_name}.exceptions", "ServerError")\n', new='        if spec.operations:\n            context.add_import(f"{context.core_package_name}.exceptions", "ServerError")\n'))
+MUTANTS.append(dict(name='registry-rescue-only-one-level-deep', file='generator/client_generator.py', expect='R6.10', old='                if registry_path.is_file() and (core_dir == out_dir or out_dir in core_dir.parents):\n', new='                if registry_path.is_file() and out_dir in (core_dir, core_dir.parent):\n'))
+MUTANTS.append(dict(name='transport-follows-redirects', file='core/http_transport.py', expect='R6.11', old='        request_args["headers"] = prepared_headers\n', new='        request_args["headers"] = prepared_headers\n        # Gateways answer a missing trailing slash or an http:// base URL with a redirect to the canonical URL\n        request_args.setdefault("follow_redirects", True)\n'))
